@@ -18,11 +18,23 @@ def model_line(sc):
     dials = ",".join("r" if d[0] == "refused" else "h" if d[0] == "hang" else f"c{d[1]}" for d in sc.get("dials", [])) or "-"
     ver = ",".join(f"{v[0]}:{v[1] if len(v) > 1 else 0}" for v in sc.get("verifies", [])) or "-"
     cs = []
-    for t, k, a in sorted(sc.get("controls", []), key=lambda c: c[0]):
+    for t, k, a in expand_controls(sc):
         if k == "zeroconf":
             a = "+".join(str(x) for x in a)
         cs.append(f"{t}:{k}:{a}")
     return f"run {sc['hosts']} {1 if sc.get('subs') else 0} {dials} {ver} {','.join(cs) or '-'} {sc['end']}"
+
+
+def expand_controls(sc):
+    """shutdown_then [k, kind2, arg2] is, for the model, shutdown followed by kind2 at the same tick."""
+    out = []
+    for t, k, a in sorted(sc.get("controls", []), key=lambda c: c[0]):
+        if k == "shutdown_then":
+            out.append([t, "shutdown", 0])
+            out.append([t, a[1], a[2]])
+        else:
+            out.append([t, k, a])
+    return out
 
 
 def parse_model(ans):
@@ -59,7 +71,7 @@ def coq_scenario(sc):
               garbage="VGarbage", peerclose="VPeerClose", peerreset="VPeerReset", http4xx="VHttp4xx")
     ver = "[" + "; ".join(f"({vk[v[0]]}, {v[1] if len(v) > 1 else 0}%N)" for v in sc.get("verifies", [])) + "]"
     cs = []
-    for t, k, a in sorted(sc.get("controls", []), key=lambda c: c[0]):
+    for t, k, a in expand_controls(sc):
         term = dict(ensure=f"Ensure {a}", cancel=f"Cancel {a}", soon="Soon", drop=f"Drop {a}", dropreset=f"DropReset {a}",
                     close="Close", shutdown="Shutdown").get(k) or f"Zeroconf {nat_list(a)}"
         cs.append(f"({t}%N, {term})")
@@ -149,6 +161,25 @@ def gen_postverify():
                     out.append(dict(hosts=1, subs=True, dials=[["connect", 0], ["connect", 0], ["connect", 0]],
                                     verifies=[v1, second], controls=[[1, "ensure", 1], [t, ctrl, arg], [60001, "ensure", 5]],
                                     end=120001, tag="postverify"))
+    return out
+
+
+def gen_shutdown_overlap():
+    """A pairing-level event arriving while shutdown() is still suspended inside close() (same tick)."""
+    out = []
+    states = [
+        ("connected", dict(dials=[["connect", 0]], verifies=[["ok", 0]], subs=False), 5001),
+        ("sleeping", dict(dials=[["refused"], ["refused"]], verifies=[], subs=False), 1001),
+        ("dialling", dict(dials=[["hang"]], verifies=[], subs=False), 1001),
+        ("postverify", dict(dials=[["connect", 0]], verifies=[["ok", 3000]], subs=True), 1001),
+        ("auth-ended", dict(dials=[["connect", 0]], verifies=[["auth", 0]], subs=False), 1001),
+    ]
+    for name, base, t in states:
+        for k in range(0, 6):
+            for kind2, arg2 in (("zeroconf", [0]), ("zeroconf", [1, 0]), ("ensure", 7)):
+                out.append(dict(hosts=2, controls=[[1, "ensure", 1], [t, "shutdown_then", [k, kind2, arg2]],
+                                                   [t + 20001, "zeroconf", [0]], [t + 40001, "ensure", 9]],
+                                end=t + 120001, tag="shutdown-overlap/" + name, **base))
     return out
 
 
@@ -245,6 +276,7 @@ def gen_long(r, n):
 # ------------------------------------------------------------------ property oracles on an implementation trace
 def oracle_c10(sc, tr):
     """Returns list of (key, text) property failures visible in the trace."""
+    sc = dict(sc, controls=expand_controls(sc))
     bad = []
     nh_max = max([sc["hosts"]] + [len(c[2]) for c in sc.get("controls", []) if c[1] == "zeroconf"])
     own_cancels = {(c[2], c[0]) for c in sc.get("controls", []) if c[1] == "cancel"}
@@ -313,6 +345,7 @@ def oracle_c10(sc, tr):
 
 
 def oracle_c11(sc, tr):
+    sc = dict(sc, controls=expand_controls(sc))
     bad = []
     for e in tr:
         if e[1] == "snap":
@@ -329,7 +362,9 @@ def oracle_c11(sc, tr):
     cl = [c for c in ctr if c[1] in ("close", "shutdown")]
     if cl:
         last = cl[-1][0]
-        reopen = any(c[0] > last and c[1] in ("ensure", "soon", "zeroconf") for c in ctr)
+        # after shutdown() only connection.reconnect_soon() (not a pairing-level call) can re-open
+        reopen_kinds = ("soon",) if cl[-1][1] == "shutdown" else ("ensure", "soon", "zeroconf")
+        reopen = any(c[0] >= last and c[1] in reopen_kinds and c is not cl[-1] for c in ctr)
         end = [e for e in tr if e[1] == "snap" and e[2] == "end"]
         if not reopen and end and end[-1][3]:
             bad.append(("open-after-close", f"connections {end[-1][3]} still open after close"))
